@@ -56,12 +56,26 @@ def programs(level):
         for i in inner:
             out.append(("select", ("lt", x, y), i, y))
             out.append(("select", ("lt", x, y), x, i))
+    out += twin_constant_programs()
     seen, res = set(), []
     for r in out:
         if r not in seen:
             seen.add(r)
             res.append(r)
     return res
+
+
+def twin_constant_programs():
+    """two constants of the same value whose like-operands are different arguments (different dtypes in the mixed
+    signatures), and constants that differ only in the sign of zero: they generate the same reference name"""
+    x, y = ("x",), ("y",)
+    out = []
+    for v in (2, 0.1, 1, 0.5):
+        out += [("add", ("multiply", x, ("c", v)), ("multiply", y, ("cy", v))), ("multiply", ("add", x, ("c", v)), ("add", y, ("cy", v))), ("add", ("multiply", y, ("cy", v)), ("multiply", x, ("c", v))),
+                ("select", ("lt", x, ("c", v)), ("add", y, ("cy", v)), y), ("add", ("add", ("multiply", x, ("c", v)), ("multiply", y, ("cy", v))), ("multiply", ("multiply", x, ("c", v)), ("multiply", y, ("cy", v))))]
+    out += [("add", ("atan2", ("c", 0.0), x), ("atan2", ("c", -0.0), y)), ("add", ("atan2", ("c", -0.0), x), ("atan2", ("c", 0.0), y)), ("add", ("copysign", x, ("c", 0.0)), ("copysign", y, ("c", -0.0))),
+            ("add", ("divide", ("c", 1), ("add", ("multiply", x, ("c", 0.0)), ("c", 0.0))), ("divide", ("c", 1), ("add", ("multiply", y, ("c", 0.0)), ("c", -0.0))))]
+    return out
 
 
 def build_recipe(fa, ctx, recipe, syms):
@@ -72,6 +86,8 @@ def build_recipe(fa, ctx, recipe, syms):
         return ctx.constant(recipe[1], syms["x"]) if not isinstance(recipe[1], bool) else ctx.constant(recipe[1])
     if k == "n":
         return ctx.constant(recipe[1], syms["x"])
+    if k == "cy":  # constant whose like-operand is y
+        return ctx.constant(recipe[1], syms["y"])
     if k == "ref":  # ("ref", name, sub): the sub-expression asks for the reference name `name`
         return build_recipe(fa, ctx, recipe[2], syms).reference(recipe[1])
     if k == "call":  # ("call", fname, sub): sub is built inside ctx.call of a function named fname (its own naming scope)
@@ -93,6 +109,8 @@ def skeleton(r):
         return k
     if k in ("c", "n"):
         return repr(r[1])
+    if k == "cy":
+        return repr(r[1]) + "~y"
     if k in ("ref", "call"):
         return f"{k}[{r[1]}](" + skeleton(r[2]) + ")"
     return k + "(" + ",".join(skeleton(q) for q in r[1:]) + ")"
@@ -163,7 +181,7 @@ def operand_dtypes(fa, recipe, dtx, dty):
             out.append(dtx)
         elif q[0] == "y":
             out.append(dty)
-        elif q[0] in ("c", "n"):
+        elif q[0] in ("c", "n", "cy"):
             out.append("const")
         else:
             def make(q):
@@ -214,10 +232,10 @@ def signature(fa, best, dtx, dty, info):
 
 
 def subtrees(r):
-    if r[0] in ("x", "y", "c", "n"):
+    if r[0] in ("x", "y", "c", "n", "cy"):
         return
     for q in r[1:]:
-        if q[0] not in ("x", "y", "c", "n"):
+        if q[0] not in ("x", "y", "c", "n", "cy"):
             yield q
         yield from subtrees(q)
 
@@ -250,7 +268,7 @@ def w_progs(task):
 
 
 def _uses_y(r):
-    if r[0] == "y":
+    if r[0] in ("y", "cy"):
         return True
     if r[0] in ("x", "c", "n"):
         return False
